@@ -755,6 +755,19 @@ func (e *Exec) exec1(op string, pos []string, kv map[string]string, line string)
 		if err := e.buildX(t); err != nil {
 			return "error:" + err.Error()
 		}
+		if kv["sig"] == "bad" {
+			// a transaction whose signature does not verify (the id is recomputed over the altered signature, so only the
+			// signature check can refuse it): blocks carrying it fail in the verification stage of Play / Walk
+			seen := map[*protos.SignatureInfo]bool{} // one entry may stand in both lists
+			for _, sg := range append(append([]*protos.SignatureInfo{}, t.Tx.InitiatorSigns...), t.Tx.AuthRequireSigns...) {
+				if len(sg.Sign) > 0 && !seen[sg] {
+					seen[sg] = true
+					sg.Sign = append([]byte{}, sg.Sign...)
+					sg.Sign[len(sg.Sign)-1] ^= 1
+				}
+			}
+			t.Tx.Txid, _ = makeTxid(t.Tx)
+		}
 		w.bindTx(t)
 		return "-"
 	case "ktx":
